@@ -20,8 +20,9 @@ RULES = {
     'R7': 'once the transport connect has created the per-client resources the connection is in a state in which the transport disconnect releases them (ACTIVE) before anything else can fail: no path from a successful connect reaches the response send (or any later failure exit) with the state still INACTIVE',
     'R8': 'the client disconnect refreshes its liveness knowledge (a call that can clear is_connected) before the transport destructor chooses between plain and forced close',
     'R9': 'the client is never told to try again by a dead server: in qb_ipcc_send, qb_ipcc_sendv and qb_ipcc_sendv_recv every return that can be -EAGAIN (flow control on, request queue full) comes from a call that consults the liveness socket (reaches qb_ipc_us_ready) - a killed server leaves flow control on and the queue full for ever; and once the disconnect is known (is_connected false) qb_ipcc_recv does not wait',
+    'R10': 'descriptor 0 is a descriptor: no teardown or cleanup path of the transports decides whether a socket is open by comparing it with > 0 (the server\'s accept() returns 0 when stdin is closed; skipping it leaves its poll entry behind, and the entry outlives the connection), and the client\'s connect cleanup closes a socket only where it is known to have been opened (>= 0, after being preset to -1) - it used to close(0) for sockets it had never opened',
 }
-FLOORS = {'R1': 9, 'R2': 10, 'R3': 6, 'R4': 7, 'R5': 5, 'R6': 3, 'R7': 2, 'R8': 2, 'R9': 7}
+FLOORS = {'R1': 9, 'R2': 10, 'R3': 6, 'R4': 7, 'R5': 5, 'R6': 3, 'R7': 2, 'R8': 2, 'R9': 7, 'R10': 3}
 
 POLLNVAL, POLLHUP, POLLIN = 0x20, 0x10, 0x1
 
@@ -36,6 +37,7 @@ def run(ctx):
     r7(ctx)
     r8(ctx)
     r9(ctx)
+    r10(ctx)
 
 
 def _scenario(f, init, tracked, mark_call, start=None, effect=None):
@@ -634,3 +636,47 @@ def r9(ctx):
                   'qb_ipcc_recv waits for the caller\'s timeout (%s) although the disconnect is already known: "later calls fail immediately" - a recv(-1) never returns' % estr(targ))
     if n == 0:
         raise AnalysisBroken('qb_ipcc_recv: no timed receive found')
+
+
+def r10(ctx):
+    prog = ctx.prog
+    n = 0
+    bad = []
+    for g in prog.all_fns(files={'lib/ipc_shm.c', 'lib/ipc_socket.c', 'lib/ipc_setup.c', 'lib/ipcs.c', 'lib/ipcc.c'}):
+        for b in g.blocks.values():
+            if b.cond is None:
+                continue
+            for lab in (True, False):
+                for a in atoms_of(b.cond, lab):
+                    lf = last_field(a.l)
+                    if lf is not None and lf[1] == 'sock' and a.rc == 0 and a.op in ('>', '<='):
+                        bad.append((g, b, a))
+    # every descriptor validity test counted (>= 0, != -1, < 0, > 0 ...)
+    for g in prog.all_fns(files={'lib/ipc_shm.c', 'lib/ipc_socket.c'}):
+        for b in g.blocks.values():
+            if b.cond is not None and any(last_field(a.l) and last_field(a.l)[1] == 'sock' and a.rc in (0, -1) for a in atoms_of(b.cond, True)):
+                n += 1
+    seen = set()
+    for (g, b, a) in bad:
+        if (g.name, b.id) in seen:
+            continue
+        seen.add((g.name, b.id))
+        ctx.check('R10', '%s:descriptor-zero-is-valid' % g.name, False, '%s:%d (%s)' % (g.file, b.term_ln, g.name), '',
+                  '%s takes %s > 0 for "open": a connection whose socket is descriptor 0 (accept() with stdin closed) is neither removed from the loop nor closed when the '
+                  'server disconnects it, and its poll entry then refers to a freed connection' % (g.name, a.ls))
+    if not bad:
+        ctx.ok('R10', 'descriptor-zero-is-valid', None, 'no transport path tests a socket with > 0 (%d validity tests seen)' % n)
+    # the client's connect cleanup
+    c = prog.fn('qb_ipcc_us_connect')
+    closes = [ev for ev in c.calls('close') if last_field(ev.args[0]) and last_field(ev.args[0])[1] == 'sock']
+    if not closes:
+        raise AnalysisBroken('qb_ipcc_us_connect: no cleanup close found')
+    for ev in closes:
+        want = estr(unwrap(ev.args[0]))
+        guarded = any(at.ls == want and ((at.op == '>=' and at.rc == 0) or (at.op == '!=' and at.rc == -1) or (at.op == '>' and at.rc == -1)) for (at, _e) in c.guards(ev))
+        preset = [st for st in c.events('STORE') if estr(st.lhs) == want and cval(unwrap(st.rhs)) == -1]
+        first_fail = [x for x in c.events('CALL') if x.callee in ('qb_sys_mmap_file_open', 'mmap')]
+        ok = guarded and bool(preset) and all(c.ev_dominates(p_, f_) for p_ in preset[:1] for f_ in first_fail)
+        ctx.check('R10', 'client-connect-cleanup-closes-what-it-opened:%s' % want.split('->')[-1], ok, ev,
+                  '%s is preset to -1 before anything can fail and closed only when >= 0' % want,
+                  'the cleanup of a failed qb_ipcc_us_connect closes %s whether or not it was opened: the field is zero-initialised, so an early failure closes descriptor 0 of the application' % want)
